@@ -12,6 +12,7 @@
       [nk; nid; label; verdict under the given typing; first reason; member of the refined typing] *)
 From Coq Require Import List Ascii String ZArith NArith Bool.
 From Shexer Require Import Lib.PyStr Spec.Rdf Spec.ShexSem Model.Table Model.EntryPipe.
+From Shexer Require Import Lib.Dict Gen.Consts Model.Freq Model.FreqInst Model.Shexing Model.Run Model.SchemaOf.
 Import ListNotations.
 
 Definition ve_of_row (r : list str) : vexpr :=
@@ -87,5 +88,54 @@ Definition c03_validate (t : table) : table :=
            bstr (pair_ok Sc G tau nl); reason_str (explain Sc G tau nl);
            bstr (in_typing tau' (fst nl) (snd nl)) ]) tau.
 
+
+(** ** the model's own output seen through [schema_of] (ties the [schema_of]
+    used by the theorems of Props/C03.v to the ShExC text the correspondence
+    compares): input = a pipe table, output = the "S"/"C" rows of the schema
+    of [run_shapes], or ["err"] *)
+
+Definition ve_row (v : vexpr) : list str :=
+  match v with
+  | VDatatype d => [Str "D"; d]
+  | VIri => [Str "I"; []]
+  | VBnode => [Str "B"; []]
+  | VNonLit => [Str "N"; []]
+  | VRef l => [Str "R"; l]
+  | VClass c => [Str "V"; c]
+  end.
+
+Definition card_row (c : scard) : list str :=
+  match c with
+  | KExact k => [Str "E"; nat_str k]
+  | KPlus => [Str "P"; Str "0"] | KStar => [Str "S"; Str "0"] | KOpt => [Str "O"; Str "0"]
+  end.
+
+Definition schema_rows (Sc : schema) : table :=
+  flat_map (fun ls : label * shape_expr =>
+              [Str "S"; fst ls] ::
+              map (fun c => [Str "C"; fst ls; bstr (tc_inv c); tc_pred c] ++ ve_row (tc_ve c) ++ card_row (tc_card c))
+                  (snd ls)) Sc.
+
+Definition c03_model_schema (t : table) : table :=
+  match run_shapes BAlg (rcfg_of t) (thr_of t) (graph_of t) with
+  | inl (_, shapes) =>
+    if has_choice shapes then [[Str "err"; Str "choice"]]
+    else [Str "ok"] :: schema_rows (schema_of (r_tau (rcfg_of t)) shapes)
+  | inr e => [[Str "err"; rerr_str e]]
+  end.
+
+(** the model's schema judged by the spec validator on the instance typing of the graph *)
+Definition c03_model_valid (t : table) : table :=
+  match run_shapes BAlg (rcfg_of t) (thr_of t) (graph_of t) with
+  | inl (_, shapes) =>
+    let c := rcfg_of t in
+    [[Str "ok"; bstr (valid_typingb (schema_of (r_tau c) shapes) (graph_of t)
+                                    (instance_typing (r_tau c) (r_shapes_ns c) (graph_of t)))]]
+  | inr e => [[Str "err"; rerr_str e]]
+  end.
+
 Definition entry_c03 (name : str) (t : table) : option table :=
-  if str_eqb name (Str "c03_validate") then Some (c03_validate t) else None.
+  if str_eqb name (Str "c03_validate") then Some (c03_validate t)
+  else if str_eqb name (Str "c03_model_schema") then Some (c03_model_schema t)
+  else if str_eqb name (Str "c03_model_valid") then Some (c03_model_valid t)
+  else None.
